@@ -4,6 +4,7 @@ CONSTANTS Threads = {1, 2, 3}
           CountWhat = "established"
           Servers = {1}
           MaxRestarts = 0
+          Bad = {}
           MaxLen = 40
 VIEW View
 INVARIANT C14_Bound
